@@ -1040,6 +1040,17 @@ theorem onlyResponse_of_sub (ix : Index) (g : String) (hnt : ¬ Twinned ix g) (e
     intro hsx
     exact hns ⟨hsx.1, hsx.2⟩
 
+/-- the repaired handler: a delete by digest that resolves to a digest carried by a response entry, and by no entry of
+    another kind, is refused with 404 and changes nothing (but for opening the repository) -/
+theorem mDel_response_refused (s : State) (r arg : String) (desc e : Desc) (ht : isTag arg = false)
+    (hg : getDesc (s.repo r).index arg = some desc) (he : e ∈ (s.repo r).index.manifests) (hsub : Sub e)
+    (hed : e.dig = desc.dig) (hnt : ¬ Twinned (s.repo r).index desc.dig) :
+    mDel s r arg = (s.setRepo (s.repo r), { status := 404, code := "MANIFEST_UNKNOWN" }) := by
+  apply mDel_refused s r arg desc
+  · rw [repo_touch]; exact hg
+  · rw [repo_touch]
+    exact ⟨by rw [ht]; rfl, onlyResponse_of_sub _ _ hnt e he hsub hed⟩
+
 /-- a manifest delete in `r` -/
 theorem mDel_r {s : State} {G : Spec} (hK : RK T r s) (hJ : RJ r s G) (hN : Names T) (arg : String)
     (hadm : isTag arg = false → ∀ d, DigArg.parse arg = .ok d → ¬ Twinned (s.repo r).index d.str) :
